@@ -144,7 +144,7 @@ def register(reg, prog):
                  ghost=lg_result('new_seqno', 'self'))
 
     # ---- replay state: first strike-out after loading marks the persisted window unknown before returning
-    reg.contract(FSC + '._replay_window_changed', self_class='FSContext', properties=P, only_raises=True,
+    reg.contract(FSC + '._replay_window_changed', self_class='FSContext', properties=P + ['C12'], only_raises=True,     # C12: 'state lost' is what the disk says after a crash
                  requires=[CRASH, 'self.gh_issued_max < self.sequence_number_persisted',
                            'implies(not self.replay_window_persisted, self.gh_disk_unknown)'],
                  modifies=['self.replay_window_persisted', 'self.gh_disk_next', 'self.gh_disk_unknown'],
